@@ -46,3 +46,28 @@ package executor
 //@   ensures result1 == nil ==> called(checkKV) && ret(checkKV) == nil
 //@   ensures result1 == nil ==> called(checkKeyAllow) && ret1(checkKeyAllow) == nil
 //@   assert@call execLocalSameTime: ret(checkKV) == nil && ret1(checkKeyAllow) == nil
+
+// ---- C31: the executor checks the blacklist before fee deduction ---------------------------------
+//@ pure func (*github.com/33cn/chain33/types.Chain33Config).IsPara
+//@ pure func github.com/33cn/chain33/types.IsForward2MainChainTx
+//@ pure func (*github.com/33cn/chain33/types.Transaction).IsExpire
+//@ pure func (*github.com/33cn/chain33/types.Transaction).Check
+//@ pure func (*github.com/33cn/chain33/types.Transactions).IsExpire
+//@ pure func (*github.com/33cn/chain33/types.Transactions).Check
+//@ pure func (*github.com/33cn/chain33/types.Chain33Config).GetMinTxFeeRate
+//@ pure func (*github.com/33cn/chain33/types.Chain33Config).GetMaxTxFee
+//@ pure func github.com/33cn/chain33/types.IsAllowExecName
+//@ pure func github.com/33cn/chain33/types.CheckTxBlockedAccount
+//@ pure func github.com/33cn/chain33/types.CheckTxsBlockedAccount
+//@ pure func (*github.com/33cn/chain33/types.Transaction).Hash
+//@ pure func github.com/33cn/chain33/common.ToHex
+
+//@ func (*executor).checkTx [C31]
+//@   opt safety=assumed
+//@   ensures result == nil && !(ret(IsPara) && called(IsForward2MainChainTx) && ret(IsForward2MainChainTx)) ==> called(CheckTxBlockedAccount) && ret(CheckTxBlockedAccount) == nil
+//@   assert@call CheckTxBlockedAccount: arg0 == e.cfg && arg1 == e.height && arg2 == tx
+
+//@ func (*executor).checkTxGroup [C31]
+//@   opt safety=assumed
+//@   ensures result == nil ==> called(CheckTxsBlockedAccount) && ret(CheckTxsBlockedAccount) == nil
+//@   assert@call CheckTxsBlockedAccount: arg0 == e.cfg && arg1 == e.height && arg2 == ret(GetTxs)
